@@ -8,11 +8,18 @@ length arithmetic and loop structure that the larger reader models do not expose
 * recursion depth of `InMemDicomObject::build_object` ↔ `build_sequence` (`object/src/mem.rs`):
   one Rust stack frame pair per open item — `maxDepth` of the token stream, which the input
   controls (20 bytes per level in Explicit VR LE);
+* the RLE Lossless decoder after repair af5f450 (`transfer-syntax-registry/src/adapters/
+  rle_lossless.rs`): `read_rle_header` with its 64-byte / 15-segment checks, `rle_segment`
+  (`get(..)` instead of slicing), the `decoded_segment.get(i)` test, and the two decode loops built
+  from them (`…Fixed`; PackBits, parameters and loop order are shared with `Model/Rle.lean`);
+  `readRleHeaderShipped` is the header reader as shipped before the repair;
 * allocation requested by the value readers of `parser/src/stateful/decode.rs`
   (`smallvec![0u8; len]`, `self.buffer.resize_with(len, …)`) *before* a byte of the value is read:
   the declared length itself (`valueAlloc`).
 -/
 import DicomModel.Model.Util
+import DicomModel.Model.Bytes
+import DicomModel.Model.Rle
 namespace Dicom.Guard
 
 def u32Max : Nat := 4294967295
@@ -69,5 +76,95 @@ def nestedBytes (n : Nat) : Nat := 20 * n
 
 /-- allocation requested by `read_value_*` for a declared value length, before any value byte is read -/
 def valueAlloc (declaredLen : Nat) : Nat := declaredLen
+
+/-! ## RLE Lossless after the repair -/
+
+open Rle
+
+/-- `read_rle_header` as shipped before af5f450: slices without any length test -/
+def readRleHeaderShipped (frag : Bytes) : Outcome (List Nat) :=
+  match rdLe32 frag with
+  | none => .panic
+  | some (n, _) =>
+    let hi := 4 * ((n + 1) % 4294967296)
+    if hi < 4 ∨ frag.length < hi then .panic
+    else
+      match rdLe32s n (frag.drop 4) with
+      | some offs => .ok offs
+      | none => .panic
+
+/-- `read_rle_header` now: fewer than 64 bytes ⇒ `Err`, more than 15 segments ⇒ `Err`; the two
+slices that follow are kept as they are in the code (a `panic` if they could fail) -/
+def readRleHeaderFixed (frag : Bytes) : Outcome (List Nat) :=
+  if frag.length < 64 then .err else
+  match rdLe32 frag with
+  | none => .panic                      -- `&fragment[0..4]`
+  | some (n, _) =>
+    if n > 15 then .err
+    else if frag.length < 4 * (n + 1) then .panic   -- `&fragment[4..4 * (n + 1)]`
+    else
+      match rdLe32s n (frag.drop 4) with
+      | some offs => .ok offs
+      | none => .panic
+
+/-- the scatter loop with `decoded_segment.get(decoded_index)`: a short segment is an `Err`;
+`dst[base_offset + dst_index]` stays an indexing operation -/
+def scatterFixed (step end_ : Nat) : Nat → Bytes → Bytes → Outcome Bytes
+  | pos, [], dst => if end_ ≤ pos then .ok dst else .err
+  | pos, x :: xs, dst =>
+    if end_ ≤ pos then .ok dst
+    else if pos < dst.length then scatterFixed step end_ (pos + step) xs (dst.set pos x)
+    else .panic
+
+/-- one segment: `rle_segment` (`offsets.get`, `fragment.get(a..b)`), PackBits, scatter -/
+def placeSegmentFixed (P : Params) (frag : Bytes) (offsets : List Nat) (base : Nat) (dst : Bytes)
+    (sn bo : Nat) : Outcome Bytes :=
+  let ii := sn * P.bps + bo
+  match offsets[ii]?, offsets[ii + 1]? with
+  | some a, some b =>
+    if b < a ∨ frag.length < b then .err
+    else
+      match unpack ((frag.drop a).take (b - a)) with
+      | none => .err
+      | some buf =>
+        scatterFixed P.step (base + P.frameSize) (base + (sn * P.bps + (P.bps - 1 - bo)))
+          (buf.take (P.rows * P.cols)) dst
+  | _, _ => .err
+
+def placeAllFixed (P : Params) (frag : Bytes) (offsets : List Nat) (base : Nat) :
+    List (Nat × Nat) → Bytes → Outcome Bytes
+  | [], dst => .ok dst
+  | (sn, bo) :: rest, dst =>
+    match placeSegmentFixed P frag offsets base dst sn bo with
+    | .ok dst' => placeAllFixed P frag offsets base rest dst'
+    | .err => .err
+    | .panic => .panic
+
+def decodeFragmentIntoFixed (P : Params) (frag : Bytes) (base : Nat) (dst : Bytes) : Outcome Bytes :=
+  match readRleHeaderFixed frag with
+  | .ok offs => placeAllFixed P frag (offs ++ [frag.length % 4294967296]) base (segOrder P) dst
+  | .err => .err
+  | .panic => .panic
+
+/-- `RleLosslessAdapter::decode_frame` after the repair (allocation failure not modelled) -/
+def decodeFrameFixed (P : Params) (frags : List Bytes) (frame : Nat) (dst0 : Bytes) : Outcome Bytes :=
+  if P.bits ≠ 8 ∧ P.bits ≠ 16 then .err
+  else
+    match frags[frame]? with
+    | none => .err
+    | some frag => decodeFragmentIntoFixed P frag dst0.length (dst0 ++ List.replicate P.frameSize 0)
+
+def decodeFramesFixed (P : Params) (base0 : Nat) : Nat → List Bytes → Bytes → Outcome Bytes
+  | _, [], dst => .ok dst
+  | i, frag :: rest, dst =>
+    match decodeFragmentIntoFixed P frag (base0 + i * P.frameSize) dst with
+    | .ok dst' => decodeFramesFixed P base0 (i + 1) rest dst'
+    | .err => .err
+    | .panic => .panic
+
+/-- `RleLosslessAdapter::decode` after the repair -/
+def decodeAllFixed (P : Params) (frags : List Bytes) (dst0 : Bytes) : Outcome Bytes :=
+  if P.bits ≠ 8 ∧ P.bits ≠ 16 then .err
+  else decodeFramesFixed P dst0.length 0 frags (dst0 ++ List.replicate (P.frameSize * frags.length) 0)
 
 end Dicom.Guard
